@@ -82,7 +82,7 @@ func explainOne(src string) (res string) {
 	if err != nil || len(stmts) != 1 {
 		return "ERR"
 	}
-	text := parser.Explain(stmts[0])
+	text := rdr.Twice(func() string { return parser.Explain(stmts[0]) })
 	sub, ok := columnSubtree(text)
 	if !ok {
 		return "ERR"
